@@ -63,7 +63,7 @@ func runC15Reopen(c *engine.Ctx) {
 		}
 		if k.IsSingle() {
 			u.buckets = []string{"aaa"}
-			u.keys = []string{"k", "d/x", ".modtime-resolution"} // the name of the backend's own probe file
+			u.keys = []string{"k", "d/x", ".modtime-resolution", ".modtime-resolution-7/y"} // names like the backend's own probe (a fixed name once, a temporary directory now)
 		}
 		ops := c02BuildOps(u)
 		name := "C15/reopen/" + string(k)
